@@ -21,6 +21,7 @@ import (
 	"sort"
 	"strings"
 	"sync"
+	"time"
 
 	billy "github.com/go-git/go-billy/v6"
 	"github.com/go-git/go-billy/v6/osfs"
@@ -181,6 +182,7 @@ func run(c *vf.Ctx) {
 		if rp.layout == "bigdelta" { // every read moves 17 MiB: few of them
 			n = c.N(30, 80)
 			o.NoPrefix = false
+			defer func(t0 time.Time) { c.Count("ms_bigdelta_reads_informational", int(time.Since(t0).Milliseconds())) }(time.Now())
 		}
 		runSequence(c, rp, o, r, n)
 	})
@@ -495,6 +497,7 @@ func (rp *repo) locate(c *vf.Ctx) error {
 // buildBigDelta: two blobs > 16 MiB differing near their end, one stored as a delta of the other, so that
 // the delta's copy instructions need the fourth offset byte (base offsets >= 2^24).
 func buildBigDelta(c *vf.Ctx, g *gitx.Git, idx int) (*repo, error) {
+	defer func(t0 time.Time) { c.Count("ms_bigdelta_build_informational", int(time.Since(t0).Milliseconds())) }(time.Now())
 	g2 := *g
 	g2.Extra = append(append([]string{}, g.Extra...), "-c", "pack.writeReverseIndex=true")
 	bp, err := packlab.NewBigPair(&g2, filepath.Join(c.Scratch, "bigdelta"), "sha1")
